@@ -1,4 +1,5 @@
 import Tahoe.Immutable.Pipeline
+import Tahoe.Codec.Model
 /-! Concrete instances used by the `example`s of C01/C04 to show that the hypotheses of the theorems are
     satisfiable: a lawful erasure code (1-of-n replication) and a toy keystream. -/
 namespace Tahoe.Immutable.Pipeline
@@ -10,7 +11,7 @@ def repl : Codec :=
 
 theorem repl_lawful (n : Nat) : repl.Lawful 1 n := by
   constructor
-  · intro pieces _; simp [repl]
+  · intro pieces _ _ _; simp [repl]
   · intro pieces L hl hp b hb
     simp only [repl, List.mem_replicate] at hb
     obtain ⟨_, rfl⟩ := hb
@@ -38,5 +39,11 @@ def ksOfBytes (stream : Bytes) : Unit → Nat → Block16 :=
 /-- the same from an array (constant-time lookup; what the drivers use) -/
 def ksOfArray (stream : Array UInt8) : Unit → Nat → Block16 :=
   fun _ blk j => stream.getD (16 * blk + j.val) 0
+
+/-- zfec's Reed–Solomon code over GF(2^8) as transcribed by C36 (`Tahoe.Codec.rs256`, imported), seen through
+    the `Codec` interface of this pipeline: `decode` receives `(share number, block)` pairs -/
+def rs256Codec : Codec :=
+  { encode := fun k n pieces => (Tahoe.Codec.rs256 k n).enc pieces
+    decode := fun k n blocks => (Tahoe.Codec.rs256 k n).dec (blocks.map (·.2)) (blocks.map (·.1)) }
 
 end Tahoe.Immutable.Pipeline
